@@ -167,6 +167,11 @@ impl Thread {
     }
 
     pub(crate) fn set_yield(&mut self) {
+        // An unpark that has not been consumed yet survives yielding.
+        if matches!(self.state, State::Runnable { unparked: true }) {
+            self.pending_unpark = true;
+        }
+
         self.state = State::Yield;
         self.last_yield = Some(self.causality[self.id]);
         self.yield_count += 1;
